@@ -8,12 +8,14 @@ CONSTANTS
     Schedules = {}
     Base = 0
     SpanLens = {}
-    DBRPs = {"db.rp", "db.rp2", "other.rp", ".", "sub"}
+    DBRPs <- MCDBRPs
+    DefaultRPs <- MCDefaultRPs
     ChildLists = {}
     WrapUser = TRUE
     TruncNext = TRUE
     CloneSharesGB = TRUE
     FluxEndsCollection = FALSE
+    ResolveEmptyRP = FALSE
     Strict = "report"
 INVARIANTS
     OnlyDeclaredDBRPs
